@@ -263,10 +263,16 @@ class _V:
         for k in kids:
             for _o, ins in h.outgoing_links(k):
                 for ip in ins:
-                    j = idx.get(ip.node)
-                    if j is not None:
+                    # a non-local (ext) edge counts as an edge to the target's ancestor in this region
+                    t = ip.node
+                    while t is not None and t not in idx:
+                        t = h[t].parent
+                    j = idx.get(t) if t is not None else None
+                    if j is not None and j != idx[k]:
                         succs[idx[k]].append(j)
                         indeg[j] += 1
+                    elif j is not None and ip.node == k:
+                        self.c("cycle", f"{self.d(k)}: node feeds itself")
         stack = [i for i, dg in enumerate(indeg) if dg == 0]
         seen = 0
         while stack:
@@ -385,6 +391,10 @@ class _V:
                     # legal ext edge: source's parent is a proper ancestor of target's parent
                     if sp is not None and dp is not None and self.is_ancestor(sp, dp) and is_copyable(sk.ty):
                         self.c("nonlocal", f"non-local value edge {self.d(src.node)}.{src.offset} -> {self.d(dst.node)}.{dst.offset}")
+                    elif (sp is not None and isinstance(h[sp].op, ops.DataflowBlock) and h[sp].parent is not None
+                          and self.is_ancestor(h[sp].parent, dp) and is_copyable(sk.ty)):
+                        # dominator edge between basic blocks of one CFG (dominance itself is not checked here)
+                        self.c("nonlocal", f"dom value edge {self.d(src.node)}.{src.offset} -> {self.d(dst.node)}.{dst.offset}")
                     else:
                         self.c("nonlocal-illegal", f"value edge {self.d(src.node)}.{src.offset} -> {self.d(dst.node)}.{dst.offset} is neither local nor a legal ext edge")
             elif st in ("function", "const"):
@@ -396,8 +406,6 @@ class _V:
         for n in h:
             op = h[n].op
             if isinstance(op, (ops.DataflowBlock, ops.ExitBlock, ops.Module, ops.Case, ops.FuncDecl, ops.Const, ops.AliasDecl, ops.AliasDefn)):
-                for p, c in ((InPort(n, 0), in_count.get(InPort(n, 0), 0)),):
-                    pass
                 continue
             if isinstance(op, ops.FuncDefn):
                 continue
@@ -426,9 +434,6 @@ class _V:
                 c = out_count.get(OutPort(n, i), 0)
                 if not is_copyable(ty) and c != 1:
                     self.c("linear", f"{self.d(n)}: non-copyable out-port {i} : {ty} linked {c} times")
-            # links on ports beyond the signature
-            for p, c in list(in_count.items()):
-                pass
         for p in list(in_count) + list(out_count):
             if p.offset == -1 or p.node not in h:
                 continue
@@ -498,3 +503,82 @@ def dump(h) -> str:
         outs = "; ".join(f"{o.offset}->" + ",".join(f"{i.node.idx}.{i.offset}" for i in ins) for o, ins in h.outgoing_links(n))
         lines.append(f"{n.idx} {_opname(d.op)} parent={d.parent.idx if d.parent else None} [{outs}]")
     return "\n".join(lines)
+
+
+def selftest(h) -> dict[str, list[str]]:
+    """Perturb a (valid) Hugr in known-bad ways and report which complaint codes each perturbation
+    triggers.  Used by the check to make sure the validator is not vacuously quiet."""
+    import copy
+
+    res: dict[str, list[str]] = {}
+
+    def codes(hh):
+        return sorted({c for c, _ in validate(hh)} - {"nonlocal"})
+
+    links = [(s, d) for s, d in h.links() if s.offset >= 0 and d.offset >= 0]
+    val_links = []
+    for s, d in links:
+        try:
+            ks, kd = h.port_kind(s), h.port_kind(d)
+        except Exception:  # noqa: BLE001
+            continue
+        if isinstance(ks, ht.ValueKind) and isinstance(kd, ht.ValueKind):
+            val_links.append((s, d, ks.ty))
+    lin = [(s, d) for s, d, t in val_links if not is_copyable(t)]
+    if lin:
+        hh = copy.deepcopy(h)
+        s, d = lin[0]
+        hh.delete_link(s, d)
+        res["drop-linear-link"] = codes(hh)
+        hh = copy.deepcopy(h)
+        other = next(((s2, d2) for s2, d2, _ in val_links if d2 != d and s2 != s), None)
+        if other:
+            hh.delete_link(*other)
+            hh.add_link(s, other[1])
+            res["duplicate-linear-use"] = codes(hh)
+    # retarget a link to a source of a different type
+    for s, d, t in val_links:
+        alt = next((s2 for s2, _d2, t2 in val_links if not ty_eq(t, t2) and h[s2.node].parent == h[d.node].parent), None)
+        if alt is not None:
+            hh = copy.deepcopy(h)
+            hh.delete_link(s, d)
+            hh.add_link(alt, d)
+            res["ill-typed-link"] = codes(hh)
+            break
+    # order edge between non-siblings
+    nodes = list(h)
+    pair = next(((a, b) for a in nodes for b in nodes
+                 if h[a].parent is not None and h[b].parent is not None and h[a].parent != h[b].parent
+                 and isinstance(h[h[a].parent].op, DF_CONTAINERS) and isinstance(h[h[b].parent].op, DF_CONTAINERS)
+                 and not isinstance(h[a].op, (ops.Input, ops.Output)) and not isinstance(h[b].op, (ops.Input, ops.Output))), None)
+    if pair:
+        hh = copy.deepcopy(h)
+        hh.add_order_link(pair[0], pair[1])
+        res["order-edge-across-regions"] = codes(hh)
+    # cycle among siblings via an order edge back
+    for s, d, _t in val_links:
+        if h[s.node].parent == h[d.node].parent and not isinstance(h[s.node].op, ops.Input) and not isinstance(h[d.node].op, ops.Output):
+            hh = copy.deepcopy(h)
+            hh.add_order_link(d.node, s.node)
+            res["cycle"] = codes(hh)
+            break
+    # swap the successors of a branching block
+    for n in h:
+        op = h[n].op
+        if isinstance(op, ops.DataflowBlock):
+            outs = {o.offset: ins for o, ins in h.outgoing_links(n) if o.offset >= 0}
+            if len(outs) == 2 and outs[0] and outs[1] and outs[0][0].node != outs[1][0].node:
+                try:
+                    r0, r1 = op.nth_outputs(0), op.nth_outputs(1)
+                except Exception:  # noqa: BLE001
+                    continue
+                if not row_eq(r0, r1):
+                    hh = copy.deepcopy(h)
+                    a, b = outs[0][0], outs[1][0]
+                    hh.delete_link(OutPort(n, 0), a)
+                    hh.delete_link(OutPort(n, 1), b)
+                    hh.add_link(OutPort(n, 0), b)
+                    hh.add_link(OutPort(n, 1), a)
+                    res["swap-successors"] = codes(hh)
+                    break
+    return res
